@@ -26,7 +26,7 @@ def d1(ctx, prog):
     acc = prog.need_class(TT, 'TTestThreadAccumulator')
     ana = prog.need_class(TT, 'TTestAnalysis')
     from .. import inline
-    run = inline.inlined(prog, prog.resolve_method(ana, 'run'))
+    run = inline.inlined(prog, prog.resolve_method(ana, 'run'), skip={'_compute'})
     # two distinct objects
     builds = [n for n in ast.walk(run.node) if isinstance(n, ast.Assign) and self_attr(n.targets[0]) == 'accumulators']
     if not builds:
@@ -167,7 +167,7 @@ def d4(ctx, prog):
               'join() waits for the thread first', join.where())
     # (c) analysis run: a raising join/compute inside the try body propagates and _compute is not reached
     from .. import inline
-    arun = inline.inlined(prog, prog.resolve_method(ana, 'run'))
+    arun = inline.inlined(prog, prog.resolve_method(ana, 'run'), skip={'_compute'})
     def calls_in_body(t, name):
         return any(isinstance(c, ast.Call) and isinstance(c.func, ast.Attribute) and c.func.attr == name for b in t.body for c in ast.walk(b))
     trys = [t for t in ast.walk(arun.node) if isinstance(t, ast.Try) and calls_in_body(t, 'join') and calls_in_body(t, 'compute')]
